@@ -1,12 +1,122 @@
 //! Known-finding predicates of the arith engine. Each recognises exactly one
-//! failure signature; only predicates named by an `open` entry of
-//! /verif/known_findings.json are active.
+//! failure signature — the trigger region of the defect AND the specific wrong
+//! answer the defective algorithm produces — so any other wrong answer, or the
+//! same symptom outside the region, is still a violation. Only predicates
+//! named by an `open` entry of /verif/known_findings.json are active.
 
-use crate::Exact;
+use crate::ops::*;
+use crate::{int_l, Exact};
 use vcore::run::Kf;
-use vcore::{Out, L};
+use vcore::{Big, Out, L};
 
-#[allow(clippy::too_many_arguments, unused_variables)]
-pub fn matches(kf: &Kf, prop: &str, l: L, op: u16, a: u128, b: u128, label: &str, got: &Out, ex: &Exact, chk: bool) -> Option<&'static str> {
+pub const EUCLID_TRUNC: &str = "div_euclid_via_overflowing_truncated_quotient";
+const FORMS: [&str; 4] = ["checked", "saturating", "wrapping", "overflowing"];
+pub const EUCLID_UNIT: &str = "div_euclid_correction_skipped_when_unit_unrepresentable";
+
+/// Model of the library's div_euclid family (D6): Euclidean quotient derived from the
+/// *fixed-point* truncated quotient `a / b` (which overflows/wraps although q fits) and a
+/// `+-1` correction that is skipped when 1 is not representable.
+struct EuclidModel {
+    region_trunc: bool,
+    region_unit: bool,
+    /// plain forms convert +1 with from_num(1) (panics under the checking profile when 1 is unrepresentable)
+    region_plain_unit: bool,
+    checked: Option<u128>,
+    saturating: u128,
+    wrapping: u128,
+    flag: bool,
+    plain_rel: u128,
+}
+
+fn euclid_model(l: L, op: u16, a: u128, b: u128) -> Option<EuclidModel> {
+    let f = l.f;
+    let av = l.val(a);
+    let (bfull, t) = if op == DIV_EUCLID {
+        let bv = l.val(b);
+        if bv.is_zero() {
+            return None;
+        }
+        (bv.clone(), av.shl(f).div_trunc(&bv))
+    } else {
+        let n = int_l(l).val(b);
+        if n.is_zero() {
+            return None;
+        }
+        (n.shl(f), av.div_trunc(&n))
+    };
+    let t_fits = l.fits(&t);
+    let q0 = l.val(l.wrap(&t));
+    let q1 = q0.shr_trunc(f).shl(f); // round_to_zero is exact (decided by C06)
+    let corr = l.signed && av.rem_trunc(&bfull).is_neg();
+    let unit = Big::pow2(f);
+    let unit_ok = l.fits(&unit);
+    let step = if bfull.is_pos() { unit.neg() } else { unit };
+    let step_ok = l.fits(&step);
+    let (wrapping, flag, checked);
+    if corr {
+        if !step_ok {
+            wrapping = l.wrap(&q1);
+            flag = true;
+            checked = None;
+        } else {
+            let s = &q1 + &step;
+            wrapping = l.wrap(&s);
+            flag = !t_fits || !l.fits(&s);
+            checked = if t_fits && l.fits(&s) { Some(l.wrap(&s)) } else { None };
+        }
+    } else {
+        wrapping = l.wrap(&q1);
+        flag = !t_fits;
+        checked = if t_fits { Some(l.wrap(&q1)) } else { None };
+    }
+    let saturating = match checked {
+        Some(v) => v,
+        None => {
+            if av.is_pos() == bfull.is_pos() {
+                l.raw_max()
+            } else {
+                l.raw_min()
+            }
+        }
+    };
+    let plain_rel = if corr { l.wrap(&(&q1 + &step)) } else { l.wrap(&q1) };
+    Some(EuclidModel {
+        region_trunc: !t_fits,
+        region_unit: t_fits && corr && !step_ok,
+        region_plain_unit: t_fits && corr && !unit_ok,
+        checked,
+        saturating,
+        wrapping,
+        flag,
+        plain_rel,
+    })
+}
+
+#[allow(clippy::too_many_arguments)]
+pub fn matches(kf: &Kf, prop: &str, l: L, op: u16, a: u128, b: u128, label: &str, got: &Out, _ex: &Exact, _chk: bool) -> Option<&'static str> {
+    if prop == "C07" && (op == DIV_EUCLID || op == DIV_EUCLID_INT) {
+        let m = euclid_model(l, op, a, b)?;
+        let id = if m.region_trunc {
+            EUCLID_TRUNC
+        } else if m.region_unit || (m.region_plain_unit && !FORMS.contains(&label)) {
+            EUCLID_UNIT
+        } else {
+            return None;
+        };
+        if !kf.is_active(id) {
+            return None;
+        }
+        let same = match label {
+            "checked" => *got == Out::O(m.checked),
+            "saturating" => *got == Out::V(m.saturating),
+            "wrapping" => *got == Out::V(m.wrapping),
+            "overflowing" => *got == Out::F(m.wrapping, m.flag),
+            // the plain form panics on the intermediate overflow under the checking profile
+            _ => *got == Out::V(m.plain_rel) || got.is_panic(),
+        };
+        if same {
+            return Some(id);
+        }
+    }
     None
 }
